@@ -52,7 +52,8 @@ def _err_error(I, st, args):
 
 @model(('*verif.opaqueError', 'Unwrap'))
 def _err_unwrap(I, st, args):
-    return None
+    d = args[0].data
+    return d[2] if len(d) > 2 else None
 
 
 # ------------------------------------------------------------------ helpers
@@ -800,7 +801,33 @@ def _fmt_sprint(I, st, args):
 
 @model('fmt.Errorf')
 def _fmt_errorf(I, st, args):
-    return new_error(I, st, 'fmt.Errorf')
+    fmt, a = args
+    wrapped = None
+    if concrete_str(fmt) and b'%w' in bytes(fmt):
+        # which operand does %w take?  count the verbs before it
+        f = bytes(fmt)
+        idx, i = 0, 0
+        while i < len(f):
+            if f[i] == 37:
+                j = i + 1
+                while j < len(f) and f[j] in b'+-# 0123456789.':
+                    j += 1
+                if j < len(f) and f[j] == 37:
+                    i = j + 1
+                    continue
+                if j < len(f) and f[j] == ord('w'):
+                    ops = I.slice_cells(st, a)
+                    if idx < len(ops):
+                        wrapped = ops[idx]
+                    break
+                idx += 1
+                i = j + 1
+            else:
+                i += 1
+    e = new_error(I, st, 'fmt.Errorf')
+    if wrapped is not None:
+        e = Iface(e.t, Opaque('err', e.v.data + (wrapped,)))
+    return e
 
 
 @model('fmt.Printf', 'fmt.Println', 'fmt.Print', 'fmt.Fprintf', 'fmt.Fprintln', 'fmt.Fprint')
@@ -827,7 +854,26 @@ def Outcome_(st, kind, val):
 @model('errors.Is')
 def _errors_is(I, st, args):
     e, target = args
-    return same(e, target)
+    for _ in range(16):
+        if e is None:
+            return target is None
+        if same(e, target):
+            return True
+        if type(e) is Iface and e.t == '*verif.opaqueError':
+            d = e.v.data
+            e = d[2] if len(d) > 2 else None
+            continue
+        return False
+    return False
+
+
+@model('errors.Unwrap')
+def _errors_unwrap(I, st, args):
+    e = args[0]
+    if type(e) is Iface and e.t == '*verif.opaqueError':
+        d = e.v.data
+        return d[2] if len(d) > 2 else None
+    return None
 
 
 # sync (single-threaded execution: locks are no-ops) ----------------------------------------
